@@ -111,6 +111,7 @@ type idxCtx struct {
 	// local tables allocated with the length of a table of known space (`make([]T, len(segments))`):
 	// one slot per element of that table, so indexed in its space
 	sized map[ssa.Value]idxSpace
+	depth int
 }
 
 func newIdxCtx(p *Program, fn *ssa.Function, members []*ssa.Function) *idxCtx {
@@ -193,6 +194,18 @@ func (ic *idxCtx) sliceSpace(v ssa.Value) idxSpace {
 	}
 	if sp, ok := ic.sized[root(v)]; ok {
 		return sp
+	}
+	// the result of a helper that makes one slot per element of a table it is handed
+	// (`drops := liveDrops(dropsIn)`): in that table's space
+	if call, ok := root(v).(*ssa.Call); ok {
+		if k := sizedByParam(call.Call.StaticCallee()); k >= 0 && k < len(call.Call.Args) && ic.depth < 3 {
+			ic.depth++
+			sp := ic.sliceSpace(call.Call.Args[k])
+			ic.depth--
+			if sp == spSeg {
+				return sp
+			}
+		}
 	}
 	if u, ok := v.(*ssa.UnOp); ok && u.Op == token.MUL {
 		// through the local variable that holds it
@@ -342,6 +355,7 @@ func ruleR25() *Rule {
 					})
 				}
 			}
+			r25HelperCalls(c, propOf)
 			want := 12
 			c.check(total >= half(want), "classified-accesses", "-", fmt.Sprintf("indexed accesses whose table and index space are both known are found (at least %d)", want), fmt.Sprintf("found %d", total))
 		},
@@ -353,4 +367,207 @@ func derefSliceElem(t types.Type) types.Type {
 		return sl.Elem()
 	}
 	return t
+}
+
+// sizedByParam: every slice H returns (result 0) was made with the length of one and the same slice
+// parameter; returns that parameter's index, or -1.
+func sizedByParam(h *ssa.Function) int {
+	if h == nil || len(h.Blocks) == 0 || h.Signature.Results().Len() == 0 {
+		return -1
+	}
+	if _, ok := h.Signature.Results().At(0).Type().Underlying().(*types.Slice); !ok {
+		return -1
+	}
+	k := -1
+	for _, ret := range returnsOf(h) {
+		rv := root(returnedValue(ret, 0))
+		if isNilConst(rv) {
+			continue
+		}
+		mk, ok := rv.(*ssa.MakeSlice)
+		if !ok {
+			return -1
+		}
+		la := lenArgOf(mk.Len)
+		if la == nil {
+			return -1
+		}
+		prm, ok := root(la).(*ssa.Parameter)
+		if !ok {
+			return -1
+		}
+		pi := -1
+		for i, q := range h.Params {
+			if q == prm {
+				pi = i
+			}
+		}
+		if pi < 0 || (k >= 0 && k != pi) {
+			return -1
+		}
+		k = pi
+	}
+	return k
+}
+
+// helperAccess: in helper H the slice parameter `param` is indexed by an index that is in a fixed space
+// (sp != spUnknown), ranges over parameter `over` (>= 0), or is the value `idx` (shared with other accesses).
+type helperAccess struct {
+	param int
+	sp    idxSpace
+	over  int
+	idx   ssa.Value
+	at    *ssa.IndexAddr
+}
+
+func helperAccesses(h *ssa.Function) []helperAccess {
+	if h == nil || len(h.Blocks) == 0 {
+		return nil
+	}
+	pidx := func(v ssa.Value) int {
+		prm, ok := root(v).(*ssa.Parameter)
+		if !ok {
+			return -1
+		}
+		for i, q := range h.Params {
+			if q == prm {
+				if _, isSl := q.Type().Underlying().(*types.Slice); isSl {
+					return i
+				}
+			}
+		}
+		return -1
+	}
+	ic := &idxCtx{fn: h, loops: map[*ssa.Function][]*natLoop{h: naturalLoops(h)}, active: map[string]bool{}, seg: map[string]bool{}, sized: map[ssa.Value]idxSpace{}}
+	var out []helperAccess
+	eachInstr(h, func(_ *ssa.BasicBlock, in ssa.Instruction) {
+		ia, ok := in.(*ssa.IndexAddr)
+		if !ok {
+			return
+		}
+		pi := pidx(ia.X)
+		if pi < 0 {
+			return
+		}
+		acc := helperAccess{param: pi, over: -1, idx: root(ia.Index), at: ia}
+		if sp := ic.indexSpace(ia.Index, 0); sp == spActive {
+			acc.sp = sp
+		}
+		// a range / counting loop over another parameter
+		var ph *ssa.Phi
+		switch x := stripConv(root(ia.Index)).(type) {
+		case *ssa.Phi:
+			ph = x
+		case *ssa.BinOp:
+			if x.Op == token.ADD {
+				ph, _ = x.X.(*ssa.Phi)
+			}
+		}
+		if ph != nil {
+			for _, l := range ic.loops[h] {
+				if l.header == ph.Block() {
+					if rs := l.rangedSlice(); rs != nil {
+						acc.over = pidx(rs)
+					}
+				}
+			}
+		}
+		out = append(out, acc)
+	})
+	return out
+}
+
+// r25HelperCalls: a merge routine hands its tables to a helper that indexes them; the helper's accesses
+// say which of its parameters must be in the same space (indexed by one index, or one indexed by a loop
+// over the other) or in the enumerator's (active) space. The arguments at the call are checked against that.
+func r25HelperCalls(c *RuleCtx, propOf func(*ssa.Function) []string) {
+	p := c.p
+	n := 0
+	for _, fn := range p.ZapFuncs {
+		if fn.Parent() != nil {
+			continue
+		}
+		hasSeg := false
+		for _, prm := range fn.Params {
+			if isNamed(derefSliceElem(prm.Type()), zapPkgPath, "SegmentBase") {
+				hasSeg = true
+			}
+		}
+		if !hasSeg {
+			continue
+		}
+		members := []*ssa.Function{fn}
+		for _, f2 := range p.ZapFuncs {
+			if f2.Parent() != nil && rootParent(f2) == fn {
+				members = append(members, f2)
+			}
+		}
+		ic := newIdxCtx(p, fn, members)
+		counts := map[string]int{}
+		for _, f := range members {
+			for _, cs := range callSites(f) {
+				h := staticCallee(cs)
+				if h == nil || !p.InZap(h) || h.Parent() != nil || h == fn {
+					continue
+				}
+				args := cs.Common().Args
+				accs := helperAccesses(h)
+				if len(accs) == 0 {
+					continue
+				}
+				spaceOfArg := func(i int) idxSpace {
+					if i < 0 || i >= len(args) {
+						return spUnknown
+					}
+					sp := ic.sliceSpace(args[i])
+					if sp == spLow {
+						return spUnknown
+					}
+					return sp
+				}
+				var bad []string
+				judged := false
+				for i, a := range accs {
+					sa := spaceOfArg(a.param)
+					if sa == spUnknown {
+						continue
+					}
+					if a.sp != spUnknown {
+						judged = true
+						if sa != a.sp {
+							bad = append(bad, fmt.Sprintf("%s indexes its parameter %s with a %s index (%s), but is handed %s, a %s table", funcShortName(h), h.Params[a.param].Name(), a.sp, p.instrPos(a.at), valText(p, args[a.param]), sa))
+						}
+					}
+					if a.over >= 0 && a.over != a.param {
+						if sb := spaceOfArg(a.over); sb != spUnknown {
+							judged = true
+							if sa != sb {
+								bad = append(bad, fmt.Sprintf("%s walks %s and indexes %s with the same position, but is handed a %s and a %s table", funcShortName(h), h.Params[a.over].Name(), h.Params[a.param].Name(), sb, sa))
+							}
+						}
+					}
+					for _, b := range accs[i+1:] {
+						if b.param == a.param || b.idx != a.idx {
+							continue
+						}
+						if sb := spaceOfArg(b.param); sb != spUnknown {
+							judged = true
+							if sa != sb {
+								bad = append(bad, fmt.Sprintf("%s indexes %s and %s with one index, but is handed a %s and a %s table", funcShortName(h), h.Params[a.param].Name(), h.Params[b.param].Name(), sa, sb))
+							}
+						}
+					}
+				}
+				if !judged {
+					continue
+				}
+				n++
+				counts[h.Name()]++
+				key := fmt.Sprintf("%s/call/%s#%d", funcShortName(fn), h.Name(), counts[h.Name()])
+				c.add(statusOf(len(bad) == 0), key, c.pos(cs), fmt.Sprintf("in %s the tables handed to %s are in the index spaces its accesses need", funcShortName(f), funcShortName(h)),
+					"a table of one index space is handed to a helper that indexes it in another: they coincide only while every input segment has the field", propOf(fn), uniq(bad))
+			}
+		}
+	}
+	c.okP([]string{"C06", "C13"}, "helper-calls", "-", fmt.Sprintf("calls handing index-space-typed tables to helpers that index them: %d (pinned tree: 4)", n))
 }
